@@ -803,40 +803,6 @@ Section Gov.
 
   Definition has_domain_err (m : list (state * N)) : bool := existsb (fun x : state * N => (snd x =? 99) || (snd x =? 97)) m.
 
-  (** The judge.  [init]: the implementation's observation after genesis; [cfgs]: defect
-      configurations allowed for the current tree (bit sets), tried in order.
-      Verdict: (2, step*16+clause) the property predicate is false on the implementation's own
-      trace; (1, i) it holds there but no allowed configuration of the model reproduces the trace
-      (first difference under the first configuration); (3, _) outside the model's domain. *)
-  Definition judge (accts nodes : list N) (weights : list N) (strat : list (N * (bool * E * string)))
-             (init : state) (tr : list (op * N * state)) (cfgs : list N) : verdict :=
-    let st0 := init_state weights strat in
-    let p := trace_ok accts nodes init tr 0 in
-    if negb (obs_eqb accts nodes st0 init) then V_mismatch 999
-    else if negb (p =? 0) then V_propfalse p
-    else
-      let ops := map (fun x : op * N * state => fst (fst x)) tr in
-      let runs := map (fun c => run_all (defects_of_bits c) st0 ops) cfgs in
-      if existsb (fun m => match trace_diff accts nodes m tr 0 with None => true | Some _ => false end) runs then V_ok
-      else match runs with
-           | [] => V_domain 0
-           | m :: _ => if has_domain_err m then V_domain 1
-                       else match trace_diff accts nodes m tr 0 with Some i => V_mismatch i | None => V_ok end
-           end.
-
-  (** which configuration reproduces the trace (for reports): 1 + index into cfgs, 0 = none *)
-  Definition matching_cfg (accts nodes : list N) (weights : list N) (strat : list (N * (bool * E * string)))
-             (tr : list (op * N * state)) (cfgs : list N) : N :=
-    let st0 := init_state weights strat in
-    let ops := map (fun x : op * N * state => fst (fst x)) tr in
-    (fix go (l : list N) (k : N) : N :=
-       match l with
-       | [] => 0
-       | c :: t => match trace_diff accts nodes (run_all (defects_of_bits c) st0 ops) tr 0 with
-                   | None => k
-                   | Some _ => go t (k + 1)
-                   end
-       end) cfgs 1.
 End Gov.
 
 (** * Running instance: expressions are indexes into a pool of deep-embedded expressions;
